@@ -463,6 +463,7 @@ func driveSpec(args []string) error {
 	w := newChunkWriter(*out, 0)
 	defer w.close()
 	inChunk := 0
+	slowDocs := 0
 	distinct := map[string]struct{}{}
 	var samples []interface{}
 	runs, loaded := 0, 0
@@ -520,8 +521,10 @@ func driveSpec(args []string) error {
 				if *repeat > 3 && rep == *repeat-3 {
 					usePrimed, usePrimedKind = true, 1+di%2
 				}
+				t0 := time.Now()
 				res := runSpec(d.text, cont, in, reg, *repeat > 1 && rep == *repeat-1)
 				usePrimed, useSkipSchemata = false, false
+				slow := time.Since(t0) > 20*time.Second
 				if res.out == "loaderr" {
 					break
 				}
@@ -557,13 +560,19 @@ func driveSpec(args []string) error {
 						samples = append(samples, enc.M{"base": d.base, "edit": d.edit, "outcome": res.out, "errors": len(res.errs)})
 					}
 				}
+				if slow && rep < nrep-1 {
+					// a document whose validation takes this long (it did return) is validated once per mode: repeating it
+					// would keep one shard busy for the better part of an hour
+					slowDocs++
+					break
+				}
 			}
 		}
 	}
 	w.close()
 	_ = os.WriteFile(filepath.Join(*out, "messages.json"), mustJSON(in.tab), 0o644)
 	return writeJSONFile(filepath.Join(*out, "meta.json"), map[string]interface{}{"events": w.n, "runs": runs, "documents": loaded, "distinct_nontrivial": len(distinct),
-		"samples": samples, "outcomes": outcomes})
+		"samples": samples, "outcomes": outcomes, "slow_document_modes": slowDocs})
 }
 
 func mustJSON(v interface{}) []byte {
